@@ -1,6 +1,7 @@
 (* C20 — module imports are transparent.  Statements only. *)
 From Coq Require Import String ZArith List Bool.
 From FcpV Require Import Schema.Types Front.Lexer Front.Parser Front.Elab Front.ElabProofs.
+From FcpV Require Import Verifier.Checks Py.BufferLib Py.DispatchLib Verifier.ChecksLib Layout.Packed Layout.EncoderLib Specs.SpecsLib Specs.SpecsProofs.
 Import ListNotations.
 Open Scope string_scope.
 
@@ -63,3 +64,12 @@ Example c20_nonvacuous :
   | _, _ => False
   end.
 Proof. vm_compute. split; reflexivity. Qed.
+
+(* ---- FcpV2.merge itself (translated from specs/v2.py on every run, gen/PySpecs.v): every list of the importer is extended by the
+   module's - structs, enums, bindings, services and devices - and nothing else changes ---- *)
+Theorem source_merge_is_append :
+  forall t m,
+    PySpecs.py_FcpV2_merge t m = POk {| t_structs := t_structs t ++ t_structs m; t_enums := t_enums t ++ t_enums m; t_impls := t_impls t ++ t_impls m;
+                                        t_services := t_services t ++ t_services m; t_devices := t_devices t ++ t_devices m |}.
+Proof. exact merge_is_append. Qed.
+Print Assumptions source_merge_is_append.
